@@ -17,6 +17,8 @@ ASSUMPTIONS = {
 
 PROPS = {
     "C01": {"level": "exploration", "profiles": [
+        {"id": "C01cli", "quick_n": 400, "thorough_n": 30000, "quick_s": 60, "thorough_s": 600, "seed_off": 500000,
+         "rule": "same generator through the in-process CLI: `wrgl commit -n N --mem-limit M --delimiter D` then `wrgl export`, parsed back and compared with the model; non-trivial = >=2 rows and (duplicate keys or >255 rows or spill)"},
         {"id": "C01", "quick_n": 640, "thorough_n": 40000, "quick_s": 60, "thorough_s": 900,
          "rule": "generated CSV x delimiter x run size x workers x store-op schedule; non-trivial = >=2 rows and (spill or >=2 blocks or duplicate keys or cell >=255 bytes); distinct by plan hash"},
     ]},
@@ -59,5 +61,9 @@ PROPS = {
     "C05": {"level": "exploration", "profiles": [
         {"id": "C05", "cpu": 4, "quick_n": 1200, "thorough_n": 150000, "quick_s": 60, "thorough_s": 900, "timeout": 120,
          "rule": "constructive 3-way merge scenarios (key anywhere or none, 1-3 blocks, 2-3 branches; disjoint edits, identical branches, branch = base, declared conflicts; column add/remove/move/rename; branch order permuted; hash-set batch; blocks or rows output); non-trivial = >=2 branches with edits or a conflict or a column operation; distinct by plan hash"},
+    ]},
+    "C02": {"level": "exploration", "profiles": [
+        {"id": "C02", "quick_n": 1500, "thorough_n": 100000, "quick_s": 60, "thorough_s": 900,
+         "rule": "one logical table under two presentations (row permutation x delimiter x run size x workers x schedule x store) => equal ids, no new object on re-ingest; one mutation => different id; CLI: commit --set-file, rewrite permuted, commit => 'hasn't changed' with ref/reflog untouched; non-trivial = >=3 rows and presentations differ in >=2 knobs; distinct by plan hash"},
     ]},
 }
